@@ -27,7 +27,7 @@ static void a_free(void *st, void *p) { (void)st; (void)p; }
 const struct cds_lfht_alloc ALC = { .malloc = a_malloc, .calloc = a_calloc, .free = a_free };
 struct unode { struct cds_lfht_node n; int key; } U0, U1, U2, U3;
 static inline struct unode *UP(int i) { return i == 0 ? &U0 : i == 1 ? &U1 : i == 2 ? &U2 : &U3; }
-static inline int uidx(struct cds_lfht_node *p) { for (int i = 0; i < 4; i++) if (p == &UP(i)->n) return i; return -1; }
+static inline int uidx(struct cds_lfht_node *p) { return p == &U0.n ? 0 : p == &U1.n ? 1 : p == &U2.n ? 2 : p == &U3.n ? 3 : -1; }
 static int match(struct cds_lfht_node *node, const void *key) { return caa_container_of(node, struct unode, n)->key == *(const int *)key; }
 unsigned long HK[2];
 struct cds_lfht *ht;
